@@ -196,6 +196,7 @@ def main():
     texts += F.f_rule_pairs(both, consts=[0, 1, F.MASK], contexts=("stack",))[:: (3 if tier == "quick" else 1)]
     texts += F.f_exh(2 if tier == "quick" else 3)
     texts += F.f_rule_siblings(ops, consts=(0, 1))[:: (2 if tier == "quick" else 1)]
+    texts += F.f_rule_triples(both)[:: (4 if tier == "quick" else 1)]
     texts += F.deep_stack_blocks()
     texts += F.f_mem((2,), deltas=[0, 32])[::4]
     texts = list(dict.fromkeys(texts))
